@@ -1,7 +1,7 @@
 (* C04: property theorems (see bin/propcfg/C04.py for the status). *)
 From Coq Require Import List ZArith Bool Permutation.
-From DD Require Import Model.Circuit Model.Query Proofs.Semantics Proofs.CountsA Proofs.QueryDefs
-  Proofs.C04Proof Props.C01.
+From DD Require Import Model.Circuit Model.Query Model.Ratio Proofs.Semantics Proofs.CountsA Proofs.QueryDefs
+  Proofs.C04Proof Proofs.C04Ratio Props.C01.
 Import ListNotations.
 Open Scope Z_scope.
 
@@ -75,4 +75,48 @@ Example ex_dup_table :
   MCA ex_dup 1 [1] = 1.
 Proof.
   split; [apply check_wf_WFQ; vm_compute; reflexivity|]. split; vm_compute; reflexivity.
+Qed.
+
+(* The ratio column (features.rs: BigRational::from((cardinality, rc)), Model/Ratio.v): for every
+   satisfiable model the call does not panic, the rows are those of C04_card_of_each_feature and
+   the ratio of row f is the exact fraction a/b in lowest terms with positive denominator,
+   a * MC = MCA [f] * b, between 0 and 1.  (The conversion of a/b to f64 and its printed text are
+   glue: compared numerically by the correspondence check.) *)
+Theorem C04_ratio_exact : forall C n s, WFQ C n -> Clean C s -> 0 < MC C n ->
+  exists rows, snd (card_of_each_feature_ratio (build C n) s) = Some rows /\
+    map fst rows = map (fun f => (f, MCA C n [f])) (zseq 1 n) /\
+    Forall (fun row => let c := snd (fst row) in let a := fst (snd row) in let b := snd (snd row) in
+              0 < b /\ a * MC C n = c * b /\ Z.gcd a b = 1 /\ 0 <= a <= b) rows.
+Proof. exact card_of_each_feature_ratio_correct. Qed.
+Print Assumptions C04_ratio_exact.
+
+(* The hypothesis 0 < MC is needed: on a model without models (outside the C01 input space, which
+   asks for a satisfiable formula) the first row divides by a zero total and the call panics
+   (num-rational "denominator == 0"); reproduced on the code with the c2d file
+   'nnf 4 0 1 / O 0 0 / L 1 / L -1 / O 1 2 1 2 / A 2 0 3' and the d4 file 'o 1 0 / f 2 0 / 1 2 1 0'. *)
+Theorem C04_ratio_panics_iff_unsat : forall C n s, WFQ C n -> Clean C s ->
+  MC C n = 0 -> (0 < n)%nat ->
+  snd (card_of_each_feature_ratio (build C n) s) = None.
+Proof. exact card_of_each_feature_ratio_panics. Qed.
+Print Assumptions C04_ratio_panics_iff_unsat.
+
+Example ex_shared_ratio :
+  WFQ ex_shared 3 /\ Clean ex_shared (junk_scratch ex_shared) /\ MC ex_shared 3 = 6 /\
+  snd (card_of_each_feature_ratio (build ex_shared 3) (junk_scratch ex_shared))
+    = Some [(1, 2, (1, 3)); (2, 3, (1, 2)); (3, 4, (2, 3))].
+Proof.
+  split; [apply check_wf_WFQ; vm_compute; reflexivity|]. split.
+  - constructor; try reflexivity. vm_compute. repeat constructor.
+  - split; vm_compute; reflexivity.
+Qed.
+
+(* a well-formed circuit without models: (x1 | -x1) & false *)
+Definition ex_unsat : circuit := [Lit 1; Lit (-1); Or [0;1]%nat; FalseN; And [2;3]%nat].
+Example ex_unsat_ratio :
+  WFQ ex_unsat 1 /\ Clean ex_unsat (junk_scratch ex_unsat) /\ MC ex_unsat 1 = 0 /\
+  snd (card_of_each_feature_ratio (build ex_unsat 1) (junk_scratch ex_unsat)) = None.
+Proof.
+  split; [apply check_wf_WFQ; vm_compute; reflexivity|]. split.
+  - constructor; try reflexivity. vm_compute. repeat constructor.
+  - split; vm_compute; reflexivity.
 Qed.
